@@ -268,14 +268,15 @@ def main(argv=None):
         'wall_s': round(wall, 2),
         'violations': len(unknown_keys),
     }
-    os.makedirs(os.path.join(common.VERIF, 'evidence'), exist_ok=True)
+    evdir = os.environ.get('VF_DEV_EVIDENCE_DIR') or os.path.join(common.VERIF, 'evidence')
+    os.makedirs(evdir, exist_ok=True)
     try:
       validate_evidence(ev)
     except Exception as e:  # pylint: disable=broad-except
       if status == 0:
         status = 2
         lines.append(f'INCONCLUSIVE property={check_id} reason=evidence-invalid:{e!r}'[:400])
-    with open(os.path.join(common.VERIF, 'evidence', f'{check_id}.json'), 'w') as f:
+    with open(os.path.join(evdir, f'{check_id}.json'), 'w') as f:
       json.dump(ev, f, indent=1, sort_keys=True)
 
   shutil.rmtree(scratch, ignore_errors=True)
